@@ -165,7 +165,8 @@ def parseCfg (fs : List String) : Config :=
     disableRefreshIntrospect := parseBool (kv fs "noRtIntrospect"),
     deviceLife := (kv fs "deviceLife").toInt?.getD (10 * 60 * 1000000000),
     parLife := (kv fs "parLife").toInt?.getD (5 * 60 * 1000000000),
-    enforcePAR := parseBool (kv fs "enforcePAR") }
+    enforcePAR := parseBool (kv fs "enforcePAR"),
+    jwtAccess := parseBool (kv fs "jwt") }
 
 def tokenForm (grant : String) (clientId : String) (extra : List (String × String)) : List (String × String) :=
   [("grant_type", grant), ("client_id", clientId)] ++ extra.filter (fun p => p.2 != "")
@@ -287,6 +288,33 @@ def parRun (m : MState) (ops : List Op) (sched : List Nat) : Sys :=
 
 def parSep : String := String.singleton (Char.ofNat 31)
 
+/-- JWT access-token mode, rendering of lookup keys only: the strategy derives the storage key from the
+    SHAPE of the presented string (`header.payload.signature` for access tokens, `random.signature` for
+    everything else), so a credential of the wrong shape is looked up under the empty key — the lookup fails
+    either way, and the harness logs the key as "?".  The model keeps one `Presented.sig` per credential; this
+    function rewrites the rendered key of such a (failing) lookup to "?" so that the call logs compare. -/
+def jwtKeyView (entry : String) : String :=
+  let (tag, rest) := if entry.startsWith "t" && (entry.splitOn ":").length > 1 && !(entry.startsWith "to")
+    then ((entry.splitOn ":").headD "" ++ ":", ":".intercalate ((entry.splitOn ":").drop 1)) else ("", entry)
+  let name := (rest.splitOn "(").headD rest
+  let accessTable := name == "getAccess" || name == "deleteAccess"
+  let opaqueTable := name == "getRefresh" || name == "deleteRefresh" || name == "getCode" || name == "invalidateCode" ||
+    name == "getPKCE" || name == "deletePKCE" || name == "getDevice" || name == "invalidateDevice"
+  if !(accessTable || opaqueTable) then entry else
+  match rest.splitOn "(" with
+  | [n, r] =>
+    match r.splitOn ")" with
+    | [arg, tail] =>
+      let wrong := if accessTable then !(arg.startsWith "A") && arg != "?" else arg.startsWith "A"
+      if wrong then tag ++ n ++ "(?)" ++ tail else entry
+    | _ => entry
+  | _ => entry
+
+def jwtCallsView (line : String) : String :=
+  match line.splitOn " || " with
+  | out :: calls :: rest => " || ".intercalate (out :: " ".intercalate ((calls.splitOn " ").map jwtKeyView) :: rest)
+  | _ => line
+
 /-- one line in, one line out -/
 def histStep (h : HistState) (line : String) : HistState × String :=
   match fields line with
@@ -302,7 +330,7 @@ def histStep (h : HistState) (line : String) : HistState × String :=
     let m' := { h.m with ss := s.ss }
     let raw := "par " ++ " ;; ".intercalate outs ++ " || " ++ " ".intercalate calls ++ " || " ++ renderDump m'.ss.store
     let (names', txt) := h.names.rewrite raw
-    ({ h with m := m', names := names', pending := [] }, txt)
+    ({ h with m := m', names := names', pending := [] }, if h.m.cfg.jwtAccess then jwtCallsView txt else txt)
   | _ =>
   match parseOp h.names (fields line) with
   | none => ({ h with pending := [] }, "bad-op")
@@ -314,6 +342,6 @@ def histStep (h : HistState) (line : String) : HistState × String :=
     let (m', out, log) := stepWith { plan := planOf h.pending, tx := tx } m0 op
     let raw := renderOut out ++ " || " ++ " ".intercalate (log.map renderCall) ++ " || " ++ renderDump m'.ss.store
     let (names', txt) := h.names.rewrite raw
-    ({ m := m', names := names', tx := tx, pending := [] }, txt)
+    ({ m := m', names := names', tx := tx, pending := [] }, if m'.cfg.jwtAccess then jwtCallsView txt else txt)
 
 end Fosite.Driver
